@@ -14,8 +14,8 @@ import (
 
 func init() {
 	Register(&Rule{ID: "R-FMT-12", Props: []string{"C02"}, Floor: 3,
-		Doc:      "no raw bytes in an encoded stream: in every lib/query function that hands a writer to EncodeView, every direct Write / WriteString into that same writer (the closing line break of a table file or of a result) writes bytes that come out of go-text's Encode — directly, or through a lib/query helper whose returned bytes all come out of it — never a []byte(string) conversion or a constant. The encoders of EncodeView write in the character encoding of the file (UTF-16, Shift_JIS, with or without a byte order mark); a line break appended as a single 0x0A byte makes a UTF-16 file read back with U+FFFD glued to its last field",
-		Controls: []string{"ctlRawLineBreakAfterEncode"},
+		Doc:      "no raw bytes in an encoded stream: in every lib/query function that hands a writer to EncodeView (itself, or through a private helper whose writer parameter is followed to the argument of each of its static call sites), every direct Write / WriteString into that same writer — in the function or in such a helper, one obligation per calling context — (the closing line break of a table file or of a result) writes bytes that come out of go-text's Encode — directly, or through a lib/query helper whose returned bytes all come out of it — never a []byte(string) conversion or a constant. The encoders of EncodeView write in the character encoding of the file (UTF-16, Shift_JIS, with or without a byte order mark); a line break appended as a single 0x0A byte makes a UTF-16 file read back with U+FFFD glued to its last field",
+		Controls: []string{"ctlRawLineBreakAfterEncode", "ctlRawLineBreakAfterHelperEncode"},
 		Run:      ruleFmt12})
 }
 
@@ -87,17 +87,20 @@ func fmt12Encoded(c *Ctx, v ssa.Value, depth int, seen map[ssa.Value]bool) (ok b
 
 func ruleFmt12(c *Ctx) {
 	start := len(c.Obs)
-	defer func() { c.negControls(start, "okEncodedLineBreakAfterEncode") }()
-	n := 0
+	defer func() { c.negControls(start, "okEncodedLineBreakAfterEncode", "okEncodedLineBreakAfterHelperEncode") }()
+	var tops []*ssa.Function
 	for _, fn := range c.P.FuncsIn(true, "lib/query") {
-		if fn.Parent() != nil {
-			continue
+		if fn.Parent() == nil {
+			tops = append(tops, fn)
 		}
-		// writers handed to EncodeView in this function (and its closures)
-		var writers []ssa.Value
-		flushes := map[ssa.CallInstruction]bool{}
-		var scanEnc func(g *ssa.Function)
-		scanEnc = func(g *ssa.Function) {
+	}
+	// the writers handed to EncodeView, per function that decides them: the function that
+	// holds the call (with its closures) or, when the writer is a parameter of a private
+	// helper, each calling context of the helper (parameter -> argument)
+	hostWriters := map[*ssa.Function][]ssa.Value{}
+	flushes := map[ssa.CallInstruction]bool{}
+	for _, fn := range tops {
+		for _, g := range fxWithClosures(fn) {
 			for _, call := range core.Calls(g) {
 				f := core.StaticCallee(call)
 				if f == nil || len(call.Common().Args) < 2 {
@@ -107,64 +110,72 @@ func ruleFmt12(c *Ctx) {
 					// the result may be encoded into a local buffer first: the writer is then the
 					// stream the buffer is written to, and that write is EncodeView's own output
 					ws, fl := fxBufferedWriters(c, g, call.Common().Args[1])
-					writers = append(writers, ws...)
 					for f := range fl {
 						flushes[f] = true
 					}
-				}
-			}
-			for _, af := range g.AnonFuncs {
-				scanEnc(af)
-			}
-		}
-		scanEnc(fn)
-		if len(writers) == 0 {
-			continue
-		}
-		sameWriter := func(w ssa.Value) bool {
-			for _, ew := range writers {
-				if w == ew || core.SameVal(w, ew) {
-					return true
-				}
-				// an interface made from the same file, or the same origins
-				ow, oe := core.Origins(w, false), core.Origins(ew, false)
-				for _, a := range ow {
-					for _, b := range oe {
-						if a == b || core.SameVal(core.Strip(a), core.Strip(b)) {
-							return true
+					for _, w := range ws {
+						for _, ctx := range fxLift(c, w, g, 3) {
+							h := fxRootFn(ctx.Fn)
+							hostWriters[h] = append(hostWriters[h], ctx.V)
 						}
 					}
 				}
 			}
-			return false
 		}
-		k := 0
-		var scan func(g *ssa.Function)
-		scan = func(g *ssa.Function) {
+	}
+	sameWriter := func(host *ssa.Function, w ssa.Value) bool {
+		for _, ew := range hostWriters[host] {
+			if w == ew || core.SameVal(w, ew) {
+				return true
+			}
+			// an interface made from the same file, or the same origins
+			ow, oe := core.Origins(w, false), core.Origins(ew, false)
+			for _, a := range ow {
+				for _, b := range oe {
+					if a == b || core.SameVal(core.Strip(a), core.Strip(b)) {
+						return true
+					}
+				}
+			}
+		}
+		return false
+	}
+	n := 0
+	perHost := map[*ssa.Function]int{}
+	for _, fn := range tops {
+		if c.P.IsControl(fn) && strings.HasPrefix(fn.Name(), "ctlEncodeView") {
+			continue // the stand-in of EncodeView in the controls: its writes are the encoder's own output
+		}
+		for _, g := range fxWithClosures(fn) {
 			for _, call := range core.Calls(g) {
 				recv, data, ok := fxFileWrite(c, call)
-				if !ok || flushes[call] || !sameWriter(recv) {
+				if !ok || flushes[call] {
 					continue
 				}
-				k++
-				c.Sites++
-				c.Touch(fn)
-				if !c.P.IsControl(fn) {
-					n++
+				// a write into a parameter of a private helper is a write into what each caller hands over
+				for _, ctx := range fxLift(c, recv, g, 3) {
+					host := fxRootFn(ctx.Fn)
+					if !sameWriter(host, ctx.V) {
+						continue
+					}
+					perHost[host]++
+					c.Sites++
+					c.Touch(host)
+					c.Touch(fn)
+					if !c.P.IsControl(host) {
+						n++
+					}
+					key := c.KeyAt(host, fmt.Sprintf("direct write #%d into the writer of EncodeView", perHost[host]))
+					in := ctx.At(call.(ssa.Instruction))
+					bytes, _ := fxMapUp(ctx.Chain, data, len(ctx.Chain))
+					if enc, why := fmt12Encoded(c, bytes, 0, map[ssa.Value]bool{}); enc {
+						c.Ok(key, c.Pos(in), "the bytes come out of go-text.Encode")
+					} else {
+						c.Bad(key, c.Pos(in), "the bytes written next to EncodeView's output are "+why+", not the output of go-text.Encode: the encoders write in the character encoding of the file, so in a UTF-16 (or other multi-byte) file these raw bytes are not the characters they were meant to be — a closing line break written as the single byte 0x0A is read back as U+FFFD glued to the last field")
+					}
 				}
-				key := c.KeyAt(fn, fmt.Sprintf("direct write #%d into the writer of EncodeView", k))
-				in := call.(ssa.Instruction)
-				if enc, why := fmt12Encoded(c, data, 0, map[ssa.Value]bool{}); enc {
-					c.Ok(key, c.Pos(in), "the bytes come out of go-text.Encode")
-				} else {
-					c.Bad(key, c.Pos(in), "the bytes written next to EncodeView's output are "+why+", not the output of go-text.Encode: the encoders write in the character encoding of the file, so in a UTF-16 (or other multi-byte) file these raw bytes are not the characters they were meant to be — a closing line break written as the single byte 0x0A is read back as U+FFFD glued to the last field")
-				}
-			}
-			for _, af := range g.AnonFuncs {
-				scan(af)
 			}
 		}
-		scan(fn)
 	}
 	if n < 3 {
 		c.Unknown("anchor:direct writes next to EncodeView", "-", fmt.Sprintf("cannot-analyse: expected the closing line breaks of Commit (2) and of the result output (1), found %d", n))
